@@ -103,19 +103,36 @@ def rule_local_counter(ctx, f, rid):
     if b:
         ctx.saw(b)
         ctx.ob(rid, "get|reads-val", cell(b.term_local(0)) == VAL and not effect_calls(b, PURE_CELL), "get must return self.val", site=b.raw["span"]["at"])
-    # ---- new / clone (L4)
-    b = ctx.anchor(rid, "GenericLocalCounter::new", f.body(LC + "new"))
+    # ---- new / clone / local (L4): whichever way the construction is cut into functions (a private `new`, `local()` building the value itself, `clone` going
+    # through `local()`), every GenericLocalCounter that comes into being starts from zero and wraps the counter it was made from
+    ctor = lambda pth: bool(re.match(r"^prometheus::counter::(GenericLocalCounter::new|GenericCounter::local)$", strip_generics(pth)))   # noqa: E731
+
+    def fresh(r, src):
+        return isinstance(r, tuple) and r and r[0] == "agg" and r[4] == ("counter", "val") and is_call(r[3][0], "Clone::clone") and peel(r[3][0]) == src \
+            and is_call(r[3][1], "RefCell::new") and is_zero(r[3][1][2][0])
+    b = f.body(LC + "new")
     if b:
         ctx.saw(b)
         r = b.term_local(0)
         ok = r[0] == "agg" and r[4] == ("counter", "val") and r[3][0] == ("param", 1) and is_call(r[3][1], "RefCell::new") and is_zero(r[3][1][2][0])
         ctx.ob(rid, "new|starts-at-zero", ok, "a new local counter must wrap the given counter and start from zero (found %s)" % show(r), site=b.raw["span"]["at"])
+    n_aggs = 0
+    for k in f.order:
+        bd = f.bodies[k]
+        for bi in bd.reachable_blocks():
+            for st in bd.blocks[bi]["stmts"]:
+                if st["k"] == "assign" and st["rv"]["k"] == "agg" and (st["rv"].get("adt") or "").endswith("counter::GenericLocalCounter"):
+                    n_aggs += 1
+                    t = bd.term_rvalue(st["rv"])
+                    okz = t[4] == ("counter", "val") and is_call(t[3][1], "RefCell::new") and is_zero(t[3][1][2][0])
+                    ctx.ob(rid, "construction|%s|starts-at-zero" % strip_generics(bd.path).split("::")[-1], okz,
+                           "every GenericLocalCounter must be created with val = 0 (found %s)" % show(t), site=bd.raw["span"]["at"])
+    ctx.floor(rid, "GenericLocalCounter constructions", n_aggs, 1)
     b = ctx.anchor(rid, "GenericLocalCounter::clone", f.body("<prometheus::counter::GenericLocalCounter<P> as std::clone::Clone>::clone"))
     if b:
         ctx.saw(b)
-        r = b.term_local(0)
-        ok = is_call(r, "GenericLocalCounter::new") and is_call(r[2][0], "Clone::clone") and peel(r[2][0]) == COUNTER
-        ctx.ob(rid, "clone|starts-at-zero", ok, "a cloned local counter must be new(self.counter.clone()), i.e. start empty (found %s)" % show(r), site=b.raw["span"]["at"])
+        r = inline.expand_body(f, b, ctor).term_local(0)
+        ctx.ob(rid, "clone|starts-at-zero", fresh(r, COUNTER), "a cloned local counter must be a fresh local of self.counter.clone(), i.e. start empty (found %s)" % show(r), site=b.raw["span"]["at"])
     b = ctx.anchor(rid, "LocalMetric::flush", f.body("<prometheus::counter::GenericLocalCounter<P> as prometheus::metrics::LocalMetric>::flush"))
     if b:
         ctx.saw(b)
@@ -125,9 +142,8 @@ def rule_local_counter(ctx, f, rid):
     b = ctx.anchor(rid, "GenericCounter::local", f.body("prometheus::counter::GenericCounter::local"))
     if b:
         ctx.saw(b)
-        r = b.term_local(0)
-        ok = is_call(r, "GenericLocalCounter::new") and is_call(r[2][0], "Clone::clone") and peel(r[2][0]) == ("param", 1)
-        ctx.ob(rid, "local|wraps-self", ok, "counter.local() must wrap a clone of that same counter (found %s)" % show(r), site=b.raw["span"]["at"])
+        r = inline.expand_body(f, b, ctor).term_local(0)
+        ctx.ob(rid, "local|wraps-self", fresh(r, ("param", 1)), "counter.local() must wrap a clone of that same counter, starting from zero (found %s)" % show(r), site=b.raw["span"]["at"])
     # who-may-write: `val` of GenericLocalCounter is written only by inc_by/inc/reset/flush/new
     writers = set()
     for k in f.order:
